@@ -84,7 +84,7 @@ def canonicalise_calls(tree: ast.AST, funcs: dict[str, list[str]], classes: dict
         if not isinstance(call, ast.Call) or getattr(call, "_gv_done", False):
             continue
         call._gv_done = True
-        if any(isinstance(a, ast.Starred) for a in call.args) or any(k.arg is None for k in call.keywords):
+        if any(isinstance(a, ast.Starred) for a in call.args):
             continue
         f = call.func
         params = None
@@ -110,7 +110,7 @@ def canonicalise_calls(tree: ast.AST, funcs: dict[str, list[str]], classes: dict
         bind = {params[i]: a for i, a in enumerate(call.args)}
         unknown = [k for k in call.keywords if k.arg not in params]
         for k in call.keywords:
-            if k.arg in params and k.arg not in bind:
+            if k.arg is not None and k.arg in params and k.arg not in bind:
                 bind[k.arg] = k.value
         # move the keywords that fill the next positions
         args = list(call.args)
@@ -236,6 +236,180 @@ def _is_pure(e: ast.AST) -> bool:
     return not any(isinstance(n, (ast.Call, ast.Await, ast.Yield, ast.YieldFrom, ast.NamedExpr, ast.Lambda, ast.ListComp, ast.SetComp, ast.DictComp, ast.GeneratorExp)) for n in ast.walk(e))
 
 
+# --------------------------------------------------------------------------------------------------------------
+# Quiet callees: functions and methods that can be evaluated twice instead of once without anybody noticing
+#
+# A definition is quiet when, syntactically, it stores into nothing but its own fresh locals, has no global/nonlocal/
+# with/yield/await/del, and calls only (a) a closed list of side-effect-free builtins and numpy functions, (b)
+# read-only methods of containers and arrays, (c) mutating container methods on its own fresh locals, (d) other
+# quiet callees (fixpoint over names: a NAME is quiet when every definition with that name in the tree is).
+
+QUIET_BUILTINS = {
+    "len", "isinstance", "issubclass", "tuple", "list", "dict", "set", "frozenset", "sorted", "zip", "enumerate", "range", "min", "max", "sum", "any", "all", "str", "int", "float", "bool", "complex", "getattr", "hasattr", "abs", "round", "reversed", "map", "filter", "type", "id", "repr", "iter", "callable", "divmod", "pow", "hash",
+    "array", "asarray", "atleast_1d", "atleast_2d", "concatenate", "hstack", "vstack", "zeros", "ones", "full", "empty", "zeros_like", "ones_like", "full_like", "where", "arange", "linspace", "isinf", "isnan", "isfinite", "logical_and", "logical_or", "logical_not", "array_equal", "allclose", "isclose", "np_array", "np_abs", "np_sum", "np_max", "np_min", "np_any", "np_all", "np_round", "np_isnan", "np_isinf", "absolute", "sqrt", "exp", "log", "dot", "matmul", "tile", "repeat", "eye", "diag", "ravel", "reshape", "nonzero", "flatnonzero", "isin", "unique", "argsort", "argmin", "argmax", "cumsum", "ndim", "shape", "size", "real", "imag", "copy", "deepcopy", "norm", "inf", "issparse", "cast", "partial", "chain", "Counter", "defaultdict", "OrderedDict", "Path", "compress", "count_nonzero", "vectorize", "equal", "not_equal", "greater", "less", "maximum", "minimum", "floor", "ceil", "mod",
+}
+QUIET_READ_METHODS = {
+    "get", "items", "keys", "values", "copy", "astype", "index", "count", "startswith", "endswith", "join", "format", "split", "rsplit", "strip", "lstrip", "rstrip", "lower", "upper", "replace", "encode", "decode", "isdigit", "partition", "rpartition", "title", "capitalize",
+    "sum", "dot", "max", "min", "any", "all", "reshape", "ravel", "tolist", "flatten", "mean", "std", "var", "prod", "argmax", "argmin", "argsort", "nonzero", "transpose", "squeeze", "conj", "conjugate", "round", "clip", "cumsum", "item", "view", "toarray", "todense", "tocsr", "tocsc", "tocoo", "getnnz", "diagonal", "trace", "issubset", "issuperset", "isdisjoint", "union", "intersection", "difference", "symmetric_difference",
+    "debug", "info", "warning", "is_integer", "as_posix", "exists", "is_file", "is_dir", "with_suffix", "with_name", "resolve", "__len__", "__contains__", "__getitem__", "__iter__", "__eq__", "__hash__",
+}
+LOCAL_MUTATORS = {"append", "extend", "update", "pop", "clear", "add", "remove", "insert", "sort", "setdefault", "discard", "fill", "resize", "popitem", "reverse", "appendleft", "popleft", "intersection_update", "difference_update", "put", "itemset", "setflags"}
+
+
+def _quiet_local(fn: ast.AST) -> tuple[bool, set[str], set[str]]:
+    """(no effect visible outside apart from those of the callees, method names needed quiet, function names needed quiet)."""
+    params = {a.arg for a in [*fn.args.posonlyargs, *fn.args.args, *fn.args.kwonlyargs]}
+    if fn.args.vararg:
+        params.add(fn.args.vararg.arg)
+    if fn.args.kwarg:
+        params.add(fn.args.kwarg.arg)
+    own = list(_own_nodes(fn))
+    if any(isinstance(n, (ast.Global, ast.Nonlocal, ast.With, ast.AsyncWith, ast.Yield, ast.YieldFrom, ast.Await, ast.Delete, ast.Import, ast.ImportFrom, *FUNC_TYPES, ast.ClassDef, ast.Lambda)) for n in own if n is not fn):
+        return False, set(), set()
+    # locals that may alias something reachable from outside: assigned from a name / attribute / item (possibly under
+    # a conditional), or bound by a loop / comprehension over anything
+    stored = {}
+    for n in own:
+        if isinstance(n, ast.Assign):
+            for t in n.targets:
+                for nm in ast.walk(t):
+                    if isinstance(nm, ast.Name) and isinstance(nm.ctx, ast.Store):
+                        stored.setdefault(nm.id, []).append(n.value if isinstance(t, ast.Name) else None)
+        elif isinstance(n, (ast.AnnAssign,)) and isinstance(n.target, ast.Name):
+            stored.setdefault(n.target.id, []).append(n.value)
+        elif isinstance(n, ast.AugAssign) and isinstance(n.target, ast.Name):
+            stored.setdefault(n.target.id, []).append(None)
+        elif isinstance(n, (ast.For, ast.AsyncFor, ast.comprehension)):
+            for nm in ast.walk(n.target):
+                if isinstance(nm, ast.Name):
+                    stored.setdefault(nm.id, []).append(None)
+        elif isinstance(n, ast.NamedExpr):
+            stored.setdefault(n.target.id, []).append(None)
+        elif isinstance(n, ast.ExceptHandler) and n.name:
+            stored.setdefault(n.name, []).append(None)
+
+    def fresh_expr(e):
+        return isinstance(e, (ast.Call, ast.Constant, ast.List, ast.Dict, ast.Set, ast.Tuple, ast.ListComp, ast.DictComp, ast.SetComp, ast.BinOp, ast.UnaryOp, ast.Compare, ast.JoinedStr)) and not (isinstance(e, ast.Call) and isinstance(e.func, ast.Attribute) and e.func.attr in ("get", "setdefault", "pop", "view", "reshape", "ravel", "transpose", "squeeze"))
+
+    fresh = {name for name, vals in stored.items() if name not in params and all(v is not None and fresh_expr(v) for v in vals)}
+
+    def root(e):
+        while isinstance(e, (ast.Attribute, ast.Subscript)):
+            e = e.value
+        return e.id if isinstance(e, ast.Name) else None
+
+    mneeds, fneeds = set(), set()
+    for n in own:
+        if isinstance(n, (ast.Assign, ast.AugAssign, ast.AnnAssign)):
+            tgts = n.targets if isinstance(n, ast.Assign) else [n.target]
+            for t in tgts:
+                for sub in ast.walk(t):
+                    if isinstance(sub, (ast.Attribute, ast.Subscript)) and isinstance(sub.ctx, ast.Store) and root(sub) not in fresh:
+                        return False, set(), set()
+            if isinstance(n, ast.AugAssign) and isinstance(n.target, ast.Name) and n.target.id not in fresh and n.target.id in params:
+                return False, set(), set()  # ``param += x`` may be in place
+        elif isinstance(n, ast.Call):
+            f = n.func
+            if isinstance(f, ast.Name):
+                if f.id in QUIET_BUILTINS or f.id in ("super",):
+                    continue
+                if f.id[:1].isupper():
+                    if f.id.endswith(("Error", "Exception", "Warning")):
+                        continue
+                    return False, set(), set()
+                fneeds.add(f.id)
+            elif isinstance(f, ast.Attribute):
+                r = root(f)
+                if f.attr in LOCAL_MUTATORS:
+                    if r in fresh and isinstance(f.value, ast.Name):
+                        continue
+                    return False, set(), set()
+                if f.attr in QUIET_READ_METHODS:
+                    continue
+                if isinstance(f.value, ast.Name) and f.value.id in ("numpy", "np", "math", "operator", "itertools") and f.attr in QUIET_BUILTINS | {"prod", "floor", "ceil", "isclose", "chain", "product"}:
+                    continue
+                if f.attr[:1].isupper():
+                    return False, set(), set()
+                mneeds.add(f.attr)
+            else:
+                return False, set(), set()
+    return True, mneeds, fneeds
+
+
+def quiet_collect(tree: ast.Module) -> list[tuple[str, str, bool, frozenset, frozenset]]:
+    out = []
+
+    def visit(node, in_class):
+        for ch in ast.iter_child_nodes(node):
+            if isinstance(ch, ast.ClassDef):
+                visit(ch, True)
+            elif isinstance(ch, FUNC_TYPES):
+                decos = {getattr(d, "id", getattr(d, "attr", None)) for d in ch.decorator_list}
+                if "overload" in decos:
+                    continue
+                if decos & {"property", "cached_property", "setter", "deleter"}:
+                    continue
+                ok, mn, fn_ = _quiet_local(ch)
+                out.append(("m" if in_class else "f", ch.name, ok, frozenset(mn), frozenset(fn_)))
+            elif isinstance(ch, (ast.If, ast.Try)):
+                visit(ch, in_class)
+
+    visit(tree, False)
+    return out
+
+
+def quiet_settle(entries) -> tuple[frozenset, frozenset]:
+    """Greatest fixpoint: start from every defined name, remove a name while one of its definitions is not quiet."""
+    defs = {"m": {}, "f": {}}
+    for kind, name, ok, mn, fn_ in entries:
+        defs[kind].setdefault(name, []).append((ok, mn, fn_))
+    quiet = {"m": set(defs["m"]), "f": set(defs["f"])}
+    changed = True
+    while changed:
+        changed = False
+        for kind in ("m", "f"):
+            for name in list(quiet[kind]):
+                for ok, mn, fn_ in defs[kind][name]:
+                    if not ok or not mn <= quiet["m"] or not fn_ <= quiet["f"]:
+                        quiet[kind].discard(name)
+                        changed = True
+                        break
+    return frozenset(quiet["m"]), frozenset(quiet["f"])
+
+
+QUIET: tuple[frozenset, frozenset] = (frozenset(), frozenset())
+
+
+def _quiet_expr(e: ast.AST) -> bool:
+    """Pure apart from calls of quiet callees / builtins / read-only methods."""
+    for n in ast.walk(e):
+        if isinstance(n, (ast.Await, ast.Yield, ast.YieldFrom, ast.NamedExpr, ast.Lambda)):
+            return False
+        if isinstance(n, ast.Call):
+            f = n.func
+            if isinstance(f, ast.Name):
+                if not (f.id in QUIET_BUILTINS or f.id in QUIET[1]):
+                    return False
+            elif isinstance(f, ast.Attribute):
+                if f.attr in LOCAL_MUTATORS or not (f.attr in QUIET_READ_METHODS or f.attr in QUIET[0]):
+                    return False
+            else:
+                return False
+    return True
+
+
+def _quiet_stmt(s: ast.stmt) -> bool:
+    """A statement between a definition and its uses that cannot change what a quiet expression returns."""
+    if not isinstance(s, (ast.Assign, ast.AnnAssign, ast.Expr, ast.If, ast.Return, ast.Pass, ast.Raise, ast.Assert)):
+        return False
+    for n in ast.walk(s):
+        if isinstance(n, (ast.Attribute, ast.Subscript)) and isinstance(n.ctx, (ast.Store, ast.Del)):
+            return False
+        if isinstance(n, (ast.AugAssign, ast.For, ast.While, ast.With, ast.Try, ast.Delete)):
+            return False
+    return all(_quiet_expr(x) for x in ast.iter_child_nodes(s) if isinstance(x, ast.expr)) and all(_quiet_stmt(x) for fld in ("body", "orelse") for x in getattr(s, fld, []) if isinstance(x, ast.stmt))
+
+
 def _blocks(func: ast.AST):
     """Every statement list of the function (not entering nested scopes)."""
     stack = [func]
@@ -286,6 +460,8 @@ def _try_inline(func: ast.AST, name: str, defs: dict) -> bool:
                     return False
             if isinstance(s, (ast.For, ast.While)) and any(id(u) in {id(n) for n in ast.walk(s)} for u in uses) and any(isinstance(n, ast.Name) and isinstance(n.ctx, ast.Store) and n.id in free for n in ast.walk(s)):
                 return False
+    elif len(uses) > 1 and _quiet_expr(expr) and all(_quiet_stmt(s) for s in span) and not any(isinstance(n, ast.Name) and isinstance(n.ctx, ast.Store) and n.id in free for s in span for n in ast.walk(s)):
+        pass  # evaluated several times instead of once: nobody can tell (quiet callees, nothing stored in between)
     else:
         # an expression with calls: only when it is used once, after statements that neither call anything nor store
         # into attributes/items (so that moving the evaluation down cannot change what it sees), outside any loop
@@ -442,6 +618,14 @@ def canonicalise_tests(tree: ast.AST) -> int:
             node.test = node.test.operand
             node.body, node.orelse = node.orelse, node.body
             n += 1
+        # a negative comparison with both branches: ``if a is not None: A else: B`` -> ``if a is None: B else: A``
+        elif isinstance(node, (ast.If, ast.IfExp)) and isinstance(node.test, ast.Compare) and len(node.test.ops) == 1 and isinstance(node.test.ops[0], (ast.IsNot, ast.NotEq, ast.NotIn)) and node.orelse:
+            if isinstance(node, ast.If) and len(node.orelse) == 1 and isinstance(node.orelse[0], ast.If):
+                continue  # an elif chain keeps its order
+            pos = {ast.IsNot: ast.Is, ast.NotEq: ast.Eq, ast.NotIn: ast.In}[type(node.test.ops[0])]
+            node.test.ops = [pos()]
+            node.body, node.orelse = node.orelse, node.body
+            n += 1
     return n
 
 
@@ -462,6 +646,15 @@ def canonicalise_idioms(tree: ast.AST) -> int:
             if isinstance(node.func, ast.Attribute) and node.func.attr == "transpose" and not node.args and not node.keywords:
                 n += 1
                 return ast.copy_location(ast.Attribute(value=node.func.value, attr="T", ctx=ast.Load()), node)
+            # numpy.real(e) / real(e) -> e.real (same for imag): one spelling of the view
+            fname = node.func.id if isinstance(node.func, ast.Name) else (node.func.attr if isinstance(node.func, ast.Attribute) and isinstance(node.func.value, ast.Name) and node.func.value.id in ("numpy", "np") else None)
+            if fname in ("real", "imag") and len(node.args) == 1 and not node.keywords and not isinstance(node.args[0], ast.Starred):
+                n += 1
+                return ast.copy_location(ast.Attribute(value=node.args[0], attr=fname, ctx=ast.Load()), node)
+            # e.round() -> round(e): the method and the function of an array are the same operation
+            if isinstance(node.func, ast.Attribute) and node.func.attr == "round" and not node.args and not node.keywords and not (isinstance(node.func.value, ast.Name) and node.func.value.id in ("numpy", "np", "math")):
+                n += 1
+                return ast.copy_location(ast.Call(func=ast.Name(id="round", ctx=ast.Load()), args=[node.func.value], keywords=[]), node)
             return node
 
         def visit_Compare(self, node):  # noqa: N802
